@@ -98,6 +98,7 @@ class C12(S4UCheck):
         calls = {}
         finish = {}     # slot -> (finish clock, state) from the last record that shows it FINISHED
         timed = []      # (call rec, ret rec)
+        started = {}    # slot -> start date of the activity (match date of a mailbox communication)
         st = dict(timeouts=0, completed=0, ties=0, cancelled=0, anyfor=0)
         for r in recs:
             key = (r.aid, r.inc, r.idx)
@@ -108,6 +109,8 @@ class C12(S4UCheck):
                 if r.kind in ('wait', 'wait_for', 'wait_until', 'wait_for_or_cancel', 'test', 'obs_act') and c.args:
                     if r.kv.get('state') == 'FINISHED' and 'finish' in r.kv and float.fromhex(r.kv['finish']) >= 0:
                         finish.setdefault(c.args[0], float.fromhex(r.kv['finish']))
+                        if 'start' in r.kv:
+                            started.setdefault(c.args[0], float.fromhex(r.kv['start']))
                     elif r.kv.get('state') == 'FINISHED' and not r.kv.get('exc') and r.kind != 'obs_act' and \
                             r.clock > c.clock + EPS and c.args[0] not in finish:
                         finish[c.args[0]] = r.clock   # no recorded finish date (mess): a wait that blocked gives it
@@ -168,6 +171,10 @@ class C12(S4UCheck):
                     if f < dl - EPS:
                         v.append(('timeout_spurious', '%s(%s) called at %r timed out at %r although the activity finished '
                                   'at %r' % (r.kind, s, c.clock, r.clock, f)))
+                    elif f == dl and started.get(s, -1.0) >= dl:
+                        # an empty activity that started (was matched) at the very date of the deadline: whether that
+                        # happened before or after the timer fired is a matter of order inside that date
+                        st['ties_started_at_deadline'] = st.get('ties_started_at_deadline', 0) + 1
                     elif f == dl:
                         st['ties'] += 1
                         v.append(('timeout_tie', '%s(%s): the activity finished exactly at the deadline %r, which must '
